@@ -305,6 +305,16 @@ Example C19_ex_init_file_through_file :
      = RReject (NoProject "notes.txt/src") f.
 Proof. vm_compute. repeat split; reflexivity. Qed.
 
+(* history: a refused run - forced or not - against an output directory that an earlier
+   run has filled leaves that directory (and everything else) as it was *)
+Example C19_ex_reject_on_generated_dir :
+  let f := [("src-tauri", NProj); ("src/generated", NOut {| g_project := "primeP"; g_lib := "none"; g_viz := false |})] in
+  let fl := {| f_project := None; f_output := None; f_validation := Some "yup"; f_verbose := true;
+               f_visualize := true; f_force := true |} in
+  spec_invalid f (spec_eff f fl) = true /\ run_generate f fl = RReject (BadLib "yup") f
+  /\ fs_get f "./src/generated" = Some (NOut {| g_project := "primeP"; g_lib := "none"; g_viz := false |}).
+Proof. vm_compute. repeat split; reflexivity. Qed.
+
 Print Assumptions C19_preserve.
 Print Assumptions C19_save_refused.
 Print Assumptions C19_roundtrip.
